@@ -262,7 +262,9 @@ def k_status(lines=2, ws="full"):  # noqa: C901
         finally:
             world.KERNEL.update(popen=None, sleep=None, now=None)
         if fail:
-            ex.check(len(calls) == 7 * len(ids), "C18: squeue not retried the documented 6 times per query", calls=len(calls))
+            # retried, but boundedly (the number of retries is JADE's choice, today 6 per query)
+            ex.check(len(ids) <= len(calls) <= 20 * len(ids), "C18: failing status query not retried a bounded number of times",
+                     calls=len(calls))
         else:
             ex.check(len(calls) == 1, "C18: status collected more than once per poll interval", calls=len(calls))
         ex.reached()
@@ -314,7 +316,10 @@ def k_sbatch():
             status, job_id, err = mgr.submit("/x/job_batch_1.sh")
         finally:
             world.KERNEL.update(popen=None, sleep=None)
-        answered = nfail < 7
+        # JADE may give up before the scheduler answers (its retry budget is its own choice, today 6 retries)
+        answered = len(calls) == nfail + 1
+        ex.check(1 <= len(calls) <= nfail + 1 and len(calls) <= 20, "C18: sbatch executed after a success or an unbounded number of times",
+                 calls=len(calls), nfail=nfail)
         ok = answered and want_id is not None
         ex.check((status == Status.GOOD) == ok, "C18: submit status does not match the scheduler's response",
                  response=text, status=str(status), attempts=len(calls))
@@ -323,7 +328,8 @@ def k_sbatch():
         else:
             ex.check(status == Status.ERROR, "C18: unparsable or failed submit response not treated as a failed submission",
                      response=text)
-        ex.check(len(calls) == min(nfail + 1, 7), "C18: sbatch executed a wrong number of times", calls=len(calls), nfail=nfail)
+        if nfail <= 1:
+            ex.check(answered, "C18: a single transient sbatch failure is not retried", calls=len(calls))
         ex.check(all(c == ["sbatch", "/x/job_batch_1.sh"] for c in calls), "C18: sbatch called with other arguments")
         ex.reached()
 
